@@ -117,7 +117,13 @@ class Frame:
 class Machine:
     def __init__(self, fns, decls, models, subst=(), jobs=14, deadline=None):
         self.fns, self.decls = fns, decls
-        self.models = [(re.compile(p), m) for p, m in models]
+        def widen(p):
+            # call sites print std paths with or without their module prefix
+            p = re.sub(r'^Option::<', r'(?:std::option::|core::option::)?Option::<', p)
+            p = re.sub(r'^Result::<', r'(?:std::result::|core::result::)?Result::<', p)
+            p = re.sub(r'^Vec::<', r'(?:std::vec::|alloc::vec::)?Vec::<', p)
+            return p
+        self.models = [(re.compile(widen(p)), m) for p, m in models]
         self.subst = [(re.compile(p), r) for p, r in subst]
         self.solver = z3.Solver()
         self.solver.set('timeout', int(os.environ.get('VERIF_Z3_TIMEOUT_MS', '120000')))
